@@ -2434,7 +2434,19 @@ pub fn handle_fakekey_action<'a, const C: usize, const R: usize, T>(
             layout.event(Event::Release(x, y));
         }
         FakeKeyAction::Toggle => {
-            match states_has_coord(&layout.states, x, y) {
+            // Operations only queue events: the newest queued event of this key, if there is
+            // one, says which state the key will be in once the queue has been worked off.
+            let pressed = layout
+                .queue
+                .iter()
+                .rev()
+                .find_map(|q| match q.event() {
+                    Event::Press(i, j) if (i, j) == (x, y) => Some(true),
+                    Event::Release(i, j) if (i, j) == (x, y) => Some(false),
+                    _ => None,
+                })
+                .unwrap_or_else(|| states_has_coord(&layout.states, x, y));
+            match pressed {
                 true => layout.event(Event::Release(x, y)),
                 false => layout.event(Event::Press(x, y)),
             };
